@@ -56,6 +56,8 @@ PROBES = [1, 0.5, -0.5, 0.25, -0.25, 0.3, -0.7, 2, 3, 1.5, 2.5, 0, 0.75]
 def run(ctx):
     repo = ctx.repo
     _rows_from_per_shot_sequence(ctx, repo)
+    shared.aqt_single_qubit_shortcut_rule(ctx, 'C17.k')
+    ctx.decided.append('C17.k the hard-wired single-qubit replacement of the AQT target gateset equals the gate it replaces')
     _sampling_alignment(ctx, repo)
     _batch_order(ctx, repo)
     shared.module_state_rule(ctx, 'C17.f', ['cirq-ionq/cirq_ionq/', 'cirq-aqt/cirq_aqt/', 'cirq-pasqal/cirq_pasqal/'], floor=2)
